@@ -59,5 +59,5 @@ def run(ctx):
     ctx.assumptions += [
         "time is observed with a watchdog: a call that has not returned 1.5 s after the last stimulus is Hung; Close on channel 0 with a peer that never answers the logout is bounded by the library's 1-minute logout context (thorough tier only)",
         "'reader ended' = no goroutine of this connection is left in Conn.ReadFrom (goroutine dump), 'transport closed' = Close was called on the harness transport",
-        "two acknowledged known findings are accepted only under their guards (see known_findings.json); any other hung Close is a violation"]
+        "no known finding is acknowledged any more (the two Close hangs are repaired, known_findings.json): the guarded KF_* actions of Trace_Life are disabled and every hung Close is a violation"]
     return ctx.finish(rule="U1: RWMutex with writer preference, bounded queue, reader/consumer/closer/canceller, K in {1,2}, safety + liveness under weak fairness; pinned protocol refuted; U2/U3 as labelled")
